@@ -79,8 +79,13 @@ def _cases(tier, r):
     fresh = argstore.Fresh()
     args, kwargs = argstore.gen_init(r, sig, fresh)
     ops = argstore.gen_ops(r, sig, fresh, r.randint(0, 6))
-    yield 'random', {'p': 'argstore', 'sig': sig, 'args': args, 'kwargs': kwargs, 'ops': ops,
-                     'species': r.choice(SPECIES)}
+    case = {'p': 'argstore', 'sig': sig, 'args': args, 'kwargs': kwargs, 'ops': ops,
+            'species': r.choice(SPECIES)}
+    if r.random() < 0.03:
+      # earlier in the same thread a build was aborted by an exception that is not an
+      # `Exception` (Ctrl-C, sys.exit() inside a callable) and the program carried on
+      case['prelude'] = r.choice(['KeyboardInterrupt', 'SystemExit', 'GeneratorExit'])
+    yield 'random', case
   yield from nested_cases(tier, r)
 
 
@@ -113,6 +118,15 @@ def execute(case):
     # the direct evaluation (harness/graphs.py::ref_build); the model side is Graph.build
     from harness.props import C02
     return C02.execute(case)
+  if case.get('prelude'):
+    exc = {'KeyboardInterrupt': KeyboardInterrupt, 'SystemExit': SystemExit, 'GeneratorExit': GeneratorExit}[case['prelude']]
+
+    def aborted(x=None):
+      raise exc('aborted')
+    try:
+      fdl.build(fdl.Config(aborted, x=[fdl.Config(aborted)]))
+    except BaseException:        # the program catches it and carries on
+      pass
   real, cfg = argstore.run_real(case, species=case.get('species', 'function'))
   req = {k: case[k] for k in ('p', 'sig', 'args', 'kwargs', 'ops')}
   return real, req
